@@ -39,7 +39,13 @@ static Parsed parse_decls(const std::string& text) {
                     tok.push_back(cur), cur.clear();
                 if (c == '{' || c == '}' || c == ';')
                     tok.push_back(std::string(1, c));
-                else if (!isspace((unsigned char)c)) {
+                else if (c == ':') {
+                    // only as part of "::" inside a nested namespace name
+                    if (!tok.empty() && tok.back() == ":")
+                        tok.back() = "::";
+                    else
+                        tok.push_back(":");
+                } else if (!isspace((unsigned char)c)) {
                     p.ok = false;
                     p.why = std::string("unexpected character '") + c + "'";
                     return p;
@@ -50,21 +56,33 @@ static Parsed parse_decls(const std::string& text) {
             tok.push_back(cur);
     }
     std::vector<std::string> scope;
+    std::vector<int> opened; // scopes opened by each '{' (C++17 namespace a::b {)
     size_t i = 0;
     auto ident = [](const std::string& s) {
         return !s.empty() && (isalpha((unsigned char)s[0]) || s[0] == '_') &&
-            s != "namespace" && s != "class";
+            s != "namespace" && s != "class" && s != "struct";
     };
     while (i < tok.size()) {
         if (tok[i] == "namespace") {
-            if (i + 2 >= tok.size() || !ident(tok[i + 1]) || tok[i + 2] != "{") {
+            size_t j = i + 1;
+            int n = 0;
+            while (j < tok.size() && ident(tok[j])) {
+                scope.push_back(tok[j]);
+                ++n;
+                ++j;
+                if (j < tok.size() && tok[j] == "::")
+                    ++j;
+                else
+                    break;
+            }
+            if (n == 0 || j >= tok.size() || tok[j] != "{") {
                 p.ok = false;
                 p.why = "malformed namespace";
                 return p;
             }
-            scope.push_back(tok[i + 1]);
-            i += 3;
-        } else if (tok[i] == "class") {
+            opened.push_back(n);
+            i = j + 1;
+        } else if (tok[i] == "class" || tok[i] == "struct") {
             if (i + 2 >= tok.size() || !ident(tok[i + 1]) || tok[i + 2] != ";") {
                 p.ok = false;
                 p.why = "malformed class declaration";
@@ -76,12 +94,14 @@ static Parsed parse_decls(const std::string& text) {
             p.classes.insert(q + tok[i + 1]);
             i += 3;
         } else if (tok[i] == "}") {
-            if (scope.empty()) {
+            if (opened.empty()) {
                 p.ok = false;
                 p.why = "unbalanced '}'";
                 return p;
             }
-            scope.pop_back();
+            for (int k = 0; k < opened.back(); ++k)
+                scope.pop_back();
+            opened.pop_back();
             ++i;
         } else {
             p.ok = false;
